@@ -16,7 +16,7 @@ def run(ctx):
         return ac.replay(ctx, 'score', ['zero'], kf_rec=kf_rec)
     # (1) design theorems: the DP score is the score of an existing alignment, never above the best one; V1 and the
     #     exact family are scored as the occurrence they report (by construction: SpanResult)
-    ac.model_check(ctx, ["MC_Algo_quick.cfg"] if ctx.quick else ["MC_Algo.cfg", "MC_Algo_p3.cfg"], workers=ac.par(ctx) * 2)
+    ac.model_check(ctx, ["MC_AlgoS_quick.cfg"] if ctx.quick else ["MC_AlgoS.cfg", "MC_AlgoS_p3.cfg"], workers=ac.par(ctx) * 2)
     h = ac.harness(ctx)
     # (2) E: score of every matcher on the exhaustive enumeration, all variants
     cfgs = ["Gen_Algo_quick.cfg", "Gen_Algo_quick4.cfg"] if ctx.quick else (
